@@ -331,3 +331,28 @@ for _start in ('default', 'warm'):
             v = seen[nm]
             ctx.prove(f'{nm}_positive', z3.And(*[V.z(V.cmp('>', (v.data[k] if isinstance(v, CArr) else v.at(k)), 0)) for k in range(m)]))
         ctx.prove('z_zet_positive', V.and_(V.cmp('>', seen['z'], 0), V.cmp('>', seen['zet'], 0)))
+
+
+@harness(P, 'MMA.__init__.parameters_as_given', targets=[f'{M}:MMA.__init__'])
+def h_mma_params(ctx, it):
+    """every tuning parameter the caller passes is the one in effect (asyinit, asyincr, asydecr, asybound, albefa, pijconst, a0, epsimin, cCoef, move, maxit,
+    tolx, tolf, mmaversion), and each keeps its documented default when omitted - the asymptote rule proved for mmasub reads them from the object"""
+    from fractions import Fraction
+    net = abstract_network(ctx, it, [])
+    x = mk_signal(it, arr(ctx, 'x0', (ctx.sym('n'),))[0])
+    f0 = mk_signal(it, ctx.sym('f0', 'real'))
+    names = ['asyinit', 'asyincr', 'asydecr', 'asybound', 'albefa', 'pijconst', 'a0', 'epsimin', 'cCoef']
+    vals = {nm: ctx.sym('p_' + nm, 'real') for nm in names}
+    ctx.safety_on = False
+    mma = it.call(it.get_function(f'{M}:MMA'), [net, [x], [f0]], dict(vals, mmaversion='Svanberg1987', move=ctx.sym('mv', 'real'), maxit=7, tolx=ctx.sym('tx', 'real'),
+                                                                       tolf=ctx.sym('tf', 'real')))
+    for nm in names:
+        ctx.prove(f'given.{nm}', it.getattr(mma, nm) is vals[nm])
+    ctx.prove('given.mmaversion', it.getattr(mma, 'mmaversion') == 'Svanberg1987')
+    ctx.prove('given.move_maxit_tol', it.getattr(mma, 'move') is ctx.sym('mv', 'real') and it.getattr(mma, 'maxIt') == 7 and it.getattr(mma, 'tolX') is ctx.sym('tx', 'real')
+              and it.getattr(mma, 'tolf') is ctx.sym('tf', 'real'))
+    dflt = it.call(it.get_function(f'{M}:MMA'), [net, [x], [f0]], {})
+    want = dict(asyinit=Fraction(1, 2), asyincr=Fraction(6, 5), asydecr=Fraction(7, 10), asybound=10, albefa=Fraction(1, 10), a0=1)
+    for nm, v in want.items():
+        ctx.prove(f'default.{nm}', V.cmp('==', it.getattr(dflt, nm), v))
+    ctx.prove('default.mmaversion', it.getattr(dflt, 'mmaversion') == 'Svanberg2007')
